@@ -79,7 +79,7 @@ PARAM_KINDS = {
     "Optional[str]": (("ostr",), "option str"), "List[str]": (L(STR), "list str"),
 }
 # methods that only READ the object and return a value: (name, Coq result type, kind of the result)
-GETTERS = [("__len__", "nat", INT), ("valid", "bool", BOOL), ("get_measurements", "list str", ("sset",)), ("get_field_keys", "list str", ("sset",)), ("get_tag_keys", "list str", ("sset",)), ("get_timestamps", "list Z", L(TIME)),
+GETTERS = [("__len__", "nat", INT), ("valid", "bool", BOOL), ("empty", "bool", BOOL), ("get_measurements", "list str", ("sset",)), ("get_field_keys", "list str", ("sset",)), ("get_tag_keys", "list str", ("sset",)), ("get_timestamps", "list Z", L(TIME)),
            ("get_field_values", "list (option num)", L(UNK)), ("get_tag_values", "list (str * list (option str))", D(("sset",)))]
 METHODS = ["__init__", "_reset", "invalidate", "_insert_time", "_insert_measurements", "_insert_tags", "_insert_fields", "insert", "build",
            "_remove_timestamps", "_remove_measurements", "_remove_tags", "_remove_fields", "remove",
